@@ -4,6 +4,7 @@ package c05
 import (
 	"fmt"
 	"testing"
+	"time"
 
 	tally "github.com/uber-go/tally/v4"
 	"pgregory.net/rapid"
@@ -369,7 +370,7 @@ func TestScopes(t *testing.T) {
 	pbt.Main(t, pbt.Prop[Case]{
 		ID: "C05", Name: "scopes",
 		Rule: "rapid-generated PAIRS of derivation programs from one root (registry shard count 1..64 via the verif constructor shim; plain/cached): both derived from prefix parts P and effective tags E by permuting and regrouping the assignments into Tagged calls interleaved with the SubScope steps (plus overridden noise assignments, empty and nil maps); relation 'same' keeps (P,E), relation 'edit' applies exactly one edit (change/add/drop a prefix part, key, value or tag, or fold the next pair into a value with the key format's own delimiters). Alphabet rich in ',', '=', '+' and the empty string; in a third of the cases the root has a sanitizer and all inputs are ones it leaves unchanged. Oracle: same identity => pointer-equal scopes and metrics (also when asked twice); different identity => different pointers and increments 3/5 arrive only under their own (name,tags). Pairs of different identities whose reference canonical key strings are byte-equal are the recorded delimiter ambiguity: excluded only while listed open. Every generated pair is non-trivial by construction (regrouped or one edit apart). Distinct: FNV-64 of the case JSON.",
-		Gen:  gen, Run: run,
+		Gen:  gen, Run: run, HangAfter: 20 * time.Second,
 	})
 }
 
@@ -477,7 +478,7 @@ func TestKeyFn(t *testing.T) {
 	pbt.Main(t, pbt.Prop[KeyCase]{
 		ID: "C05", Name: "keyfn",
 		Rule: "rapid-generated (prefix, 0..4 maps over a shared small key pool) for the public key functions, each map built in two insertion orders: key deterministic, independent of construction order, key(p, m1..mk) == key(p, right-biased merge), KeyForStringMap == empty-prefix key, and a second generated (prefix, map) must get a different key iff it is a different identity (byte-equal reference canonical keys of different identities = the recorded delimiter ambiguity, excluded only while listed open). Non-trivial: >=2 maps merged or a different-identity comparison. Distinct: FNV-64 of the case JSON.",
-		Gen:  genKey, Run: runKey,
+		Gen:  genKey, Run: runKey, HangAfter: 20 * time.Second,
 	})
 }
 
